@@ -1,5 +1,5 @@
 """Unit limits (Verus): the constructors and the layer of anemo-tower's per-peer in-flight limiter (C18): inflight_limit.rs InflightLimitLayer::{new, layer},
-InflightLimit::{new, layer, inner_ref, into_inner}.  What they have to get right for the limit to be PER PEER ACROSS every service the layer builds: all
+InflightLimit::{new, layer, into_inner}; and of the per-peer rate limiter (C19): rate_limit.rs RateLimitLayer::{new, layer}, RateLimit::{new, into_inner}.  What they have to get right for the limit to be PER PEER ACROSS every service the layer builds: all
 services built by one layer share the layer's one per-peer table, with the layer's limit and wait mode.
 NOT under contract: `impl Service for InflightLimit`::call (an async block around tokio's Semaphore, boxed): run under every schedule by the bounded unit
 enum_limits.  Assumed: DashMap as an opaque table with an identity (ghost id); Arc::clone yields the same table."""
@@ -9,6 +9,7 @@ import prelude as P
 NAME = 'limits'
 BACKEND = 'verus'
 IL = 'crates/anemo-tower/src/inflight_limit.rs'
+RL = 'crates/anemo-tower/src/rate_limit.rs'
 
 STANDINS = r'''
 use std::sync::Arc;
@@ -49,6 +50,44 @@ def build(ctx):
     t += C.fn(IL, 'impl <S> InflightLimit<S> :: fn into_inner', 'InflightLimit::into_inner', ['C18'], ret='r', spec='''
     ensures
         r == self.inner, // @OBL InflightLimit::into_inner::is_the_wrapped_service [C18] into_inner returns the wrapped service
+''')
+    t += '}\n'
+    # ---- rate limiter: the same question (do all services of a layer share ONE limiter?) ----
+    t += '''
+    // governor's keyed limiter: only WHICH limiter it is matters here
+    pub struct Limiter { pub id: Ghost<int> }
+    pub type SharedRateLimiter = Arc<Limiter>;
+    #[derive(Clone, Copy)] pub struct DefaultClock;
+    impl DefaultClock { #[verifier::external_body] pub fn default() -> (r: DefaultClock) { unimplemented!() } #[verifier::external_body] pub fn clone(&self) -> (r: DefaultClock) { unimplemented!() } }
+    pub mod governor { pub struct Quota { pub burst: u32 } }
+    pub struct RateLimiter;
+    impl RateLimiter {
+        #[verifier::external_body] pub fn keyed(quota: governor::Quota) -> (r: Limiter) { unimplemented!() }
+        #[verifier::external_body] pub fn dashmap_with_clock(quota: governor::Quota, clock: &DefaultClock) -> (r: Limiter) { unimplemented!() }
+    }
+'''
+    RN = [dict(rule='X5', pattern=r'\bWaitMode\b', repl='RateWaitMode', regex=True, optional=True)]      # (the file has a WaitMode of its own: renamed here, both live in one verus! block)
+    t += C.item(RL, 'enum WaitMode', extra_derive=['Structural', 'PartialEq', 'Eq'], rewrites=RN)
+    t += C.item(RL, 'struct RateLimitLayer', derives=False, rewrites=RN)
+    t += C.item(RL, 'struct RateLimit', derives=False, rewrites=RN)
+    t += 'impl RateLimitLayer {\n'
+    t += C.fn(RL, 'impl RateLimitLayer :: fn new', 'RateLimitLayer::new', ['C19'], ret='r', rewrites=RN, spec='''
+    ensures
+        r.wait_mode == wait_mode, // @OBL RateLimitLayer::new::keeps_mode [C19] the layer stores the configured wait mode
+''')
+    t += C.fn(RL, 'impl <S> Layer<S> for RateLimitLayer :: fn layer', 'RateLimitLayer::layer', ['C19'], ret='r', sig_rewrites=[('fn layer(', 'fn layer<S>('), ('Self::Service', 'RateLimit<S>')], spec='''
+    ensures
+        r.limiter.id@ == self.limiter.id@, // @OBL RateLimitLayer::layer::shares_the_layers_limiter [C19] every service built by one layer charges a peer's requests to the layer's ONE keyed limiter (so the quota holds per peer across all of them)
+        r.wait_mode == self.wait_mode && r.inner == inner, // @OBL RateLimitLayer::layer::keeps_mode [C19] with the layer's wait mode, around exactly the given service
+''')
+    t += '}\nimpl<S> RateLimit<S> {\n'
+    t += C.fn(RL, 'impl <S> RateLimit<S> :: fn new', 'RateLimit::new', ['C19'], ret='r', rewrites=RN, spec='''
+    ensures
+        r.wait_mode == wait_mode && r.inner == inner, // @OBL RateLimit::new::keeps_mode [C19] a directly constructed limiter stores the configured wait mode around the given service
+''')
+    t += C.fn(RL, 'impl <S> RateLimit<S> :: fn into_inner', 'RateLimit::into_inner', ['C19'], ret='r', spec='''
+    ensures
+        r == self.inner, // @OBL RateLimit::into_inner::is_the_wrapped_service [C19] into_inner returns the wrapped service
 ''')
     t += '}\n'
     t += C.helpers_here()
